@@ -288,6 +288,8 @@ def run(pid, tier, merge=False):
             states += r["distinct"]
             trans += r["generated"]
             if r["rc"] == -9:
+                if C.within_budget(r, tier):
+                    continue
                 raise C.Inconclusive("exhaustive TLC run timed out: " + r.get("name", ""))
             inv, _ = C.tlc_violations(r["out"])
             if inv or "is violated" in r["out"]:
@@ -318,7 +320,7 @@ def run(pid, tier, merge=False):
         nq = sum(1 for o in outs for e in o["events"] if e["op"] in ("seekref", "seeklog", "refsfor"))
         cov = dict(states=max(states, 1), transitions=max(trans, 1), traces_validated_against_impl=len(outs) - len(set(v[1] for v in mine)),
                    programs=len(outs), disagreements_checked=vstats["events"], samples=[sample],
-                   exhaustive=bool(exh), exhaustive_jobs=[dict(name=r.get("name"), distinct=r["distinct"], generated=r["generated"], wall=round(r["wall"], 1)) for r in exh],
+                   exhaustive=bool(exh), exhaustive_jobs=[dict(name=r.get("name"), distinct=r["distinct"], generated=r["generated"], wall=round(r["wall"], 1), complete=not r.get("incomplete", False)) for r in exh],
                    tables=len(outs), queries_validated=nq, events_validated=vstats["events"], layout_features=dict(feats),
                    checks=PROP_CHECKS[pid], other_check_failures=len(others), known_findings_seen=sorted(seen_known))
         if merge:
